@@ -754,3 +754,173 @@ func c16Shape(src string, r *Result, em *Model) {
 	}
 	r.Validated++
 }
+
+// ---------- stream "ast-tie": the two exported ASTs of one program are related as the tie theorems require ----------
+func c16AstTie(src string, r *Result, tieModel *Model) {
+	in := map[string]any{"program": src, "stream": "ast-tie"}
+	c := c17Compile(src)
+	if c.ParseErr != "" {
+		r.Dist("ast-tie:generator-parse-error")
+		if r.Distribution["ast-tie:generator-parse-error"] <= 3 {
+			r.Note("ast-tie: generated program rejected by the parser (%s): %q", c.ParseErr, src)
+		}
+		return
+	}
+	px, err := ExportProgram(c.prog)
+	if err != nil {
+		r.Dist("ast-tie:export-skipped")
+		return
+	}
+	ans, err := tieModel.AskT("(tie "+astProgram(c.prog)+" "+px.String()+")", 20*time.Second)
+	if err != nil {
+		if err == ErrModelTimeout {
+			r.Dist("ast-tie:model-timeout")
+			return
+		}
+		r.Violate(Violation{Kind: "correspondence", Key: "ast-tie:model-crash", Detail: err.Error(), Input: in})
+		return
+	}
+	r.Count("ast-tie:"+src, true)
+	switch ans {
+	case "(tie related)":
+		r.Dist("ast-tie:related")
+		r.Validated++
+	case "(tie outside)":
+		r.Dist("ast-tie:outside-tfrag") // for loops, maps, slices, ...: the tie theorems do not speak about it
+	case "(tie unrelated)":
+		r.Violate(Violation{Kind: "correspondence", Key: "ast-tie:unrelated",
+			Detail: "the compiler-side and the evaluator-side AST of one source program are not related by CompileSemTie.lrel although the program is in tfrag_l",
+			Input:  in, Model: ans})
+	default:
+		r.Violate(Violation{Kind: "correspondence", Key: "ast-tie:model-output", Detail: ans, Input: in})
+	}
+}
+
+// ---------- a generator for the fragment tfrag_l of the tie theorems (coq/CompileSemTie.v) ----------
+// numbers, ASCII strings, bools, arrays of numbers; declarations anywhere, assignments, if / else if / else,
+// while with a counter, break; no for loops, maps, slices, element stores
+func genTieProgram(rng *rand.Rand) string {
+	var b strings.Builder
+	line := func(ind int, s string) { b.WriteString(strings.Repeat("    ", ind)); b.WriteString(s); b.WriteByte('\n') }
+	nums, strs, arrs := []string{"n0"}, []string{"s0"}, []string{"a0"}
+	line(0, "n0 := "+strconv.Itoa(rng.Intn(5)))
+	line(0, `s0 := "ab"`)
+	line(0, "a0 := [1 2 3]")
+	id := 0
+	fresh := func(p string) string { id++; return p + strconv.Itoa(id) }
+	var num func(d int) string
+	num = func(d int) string {
+		if d <= 0 || rng.Intn(3) == 0 {
+			if rng.Intn(2) == 0 {
+				return nums[rng.Intn(len(nums))]
+			}
+			return strconv.Itoa(rng.Intn(7))
+		}
+		switch rng.Intn(5) {
+		case 0:
+			return "(" + num(d-1) + " " + []string{"+", "-", "*", "%"}[rng.Intn(4)] + " " + num(d-1) + ")"
+		case 1:
+			return "-" + "(" + num(d-1) + ")"
+		case 2:
+			return arrs[rng.Intn(len(arrs))] + "[" + strconv.Itoa(rng.Intn(3)) + "]"
+		case 3:
+			return "(" + num(d-1) + " / 2)"
+		default:
+			return "(" + num(d-1) + ")"
+		}
+	}
+	str := func() string {
+		switch rng.Intn(4) {
+		case 0:
+			return strs[rng.Intn(len(strs))] + ` + "x"`
+		case 1:
+			return strs[rng.Intn(len(strs))] + "[0]"
+		case 2:
+			return `"hey"`
+		default:
+			return strs[rng.Intn(len(strs))]
+		}
+	}
+	cond := func() string {
+		switch rng.Intn(4) {
+		case 0:
+			return num(1) + " " + []string{"<", "<=", ">", ">="}[rng.Intn(4)] + " " + num(1)
+		case 1:
+			return num(1) + " == " + strconv.Itoa(rng.Intn(4))
+		case 2:
+			return strs[rng.Intn(len(strs))] + ` != "ab"`
+		default:
+			return "!(" + num(1) + " < 3)"
+		}
+	}
+	var block func(ind, depth int, inLoop bool)
+	block = func(ind, depth int, inLoop bool) {
+		nn, ns, na := len(nums), len(strs), len(arrs)
+		for i, k := 0, 1+rng.Intn(4); i < k; i++ {
+			switch rng.Intn(9) {
+			case 0:
+				v := fresh("n")
+				line(ind, v+" := "+num(2))
+				nums = append(nums, v)
+			case 1:
+				v := fresh("s")
+				line(ind, v+" := "+str())
+				strs = append(strs, v)
+			case 2:
+				v := fresh("a")
+				line(ind, v+" := "+arrs[rng.Intn(len(arrs))]+" + ["+num(1)+"]")
+				arrs = append(arrs, v)
+			case 3:
+				line(ind, nums[rng.Intn(len(nums))]+" = "+num(2))
+			case 4:
+				line(ind, strs[rng.Intn(len(strs))]+" = "+str())
+			case 5:
+				if depth > 0 {
+					line(ind, "if "+cond())
+					block(ind+1, depth-1, inLoop)
+					if rng.Intn(2) == 0 {
+						line(ind, "else if "+cond())
+						block(ind+1, depth-1, inLoop)
+					}
+					if rng.Intn(2) == 0 {
+						line(ind, "else")
+						block(ind+1, depth-1, inLoop)
+					}
+					line(ind, "end")
+				}
+			case 6:
+				if depth > 0 {
+					c := fresh("c")
+					line(ind, c+" := 0")
+					line(ind, "while "+c+" < "+strconv.Itoa(1+rng.Intn(3)))
+					line(ind+1, c+" = "+c+" + 1")
+					block(ind+1, depth-1, true)
+					line(ind, "end")
+				}
+			case 7:
+				if inLoop && rng.Intn(3) == 0 {
+					line(ind, "break")
+					i = k
+				}
+			default:
+				line(ind, arrs[rng.Intn(len(arrs))]+" = ["+num(1)+" "+num(1)+"]")
+			}
+		}
+		// the parser rejects variables that are declared but not used: read every variable of this block once
+		for _, v := range nums[nn:] {
+			line(ind, "n0 = "+v)
+		}
+		for _, v := range strs[ns:] {
+			line(ind, "s0 = "+v)
+		}
+		for _, v := range arrs[na:] {
+			line(ind, "a0 = "+v)
+		}
+		nums, strs, arrs = nums[:nn], strs[:ns], arrs[:na]
+	}
+	block(0, 2, false)
+	line(0, "n0 = n0")
+	line(0, "s0 = s0")
+	line(0, "a0 = a0")
+	return b.String()
+}
